@@ -204,6 +204,45 @@ def check_navigation(m, where, root):
             W().walk(top)
             if sorted(visited) != sorted(map(id, reach)):
                 m.violation(f'nav/walker-visit-set-differs/{wcls.__name__}', visited=len(visited), distinct=len(set(visited)), nodes=len(reach), **where)
+            if len(reach) < 2:
+                continue
+            # one walker object used again after a walk that did not finish (a handler raised; an iteration was given up)
+            state = {'raise_at': 2, 'seen': 0}
+
+            class Stop(Exception):
+                pass
+
+            class W2(wcls):
+                def walk_Node(self, node, *a, **k):
+                    state['seen'] += 1
+                    if state['seen'] == state['raise_at']:
+                        raise Stop()
+                    visited.append(id(node))
+                    return node
+
+            w = W2()
+            try:
+                w.walk(top)
+            except Stop:
+                pass
+            if hasattr(w, 'iter_breadthfirst'):
+                it = w.iter_breadthfirst(top)
+                try:
+                    next(it)
+                except Exception:  # noqa
+                    pass
+                finally:
+                    it.close()
+            state['raise_at'] = -1
+            del visited[:]
+            try:
+                w.walk(top)
+                again = sorted(visited)
+            except Exception as e:  # noqa
+                again = f'{type(e).__name__}: {e}'[:120]
+            if again != sorted(map(id, reach)):
+                m.violation(f'nav/walker-object-reused-after-an-unfinished-walk/{wcls.__name__}',
+                            got=again if isinstance(again, str) else len(again), nodes=len(reach), **where)
     return len(nodes)
 
 
